@@ -131,11 +131,33 @@ func c02BaseDoc(f string) ([]byte, string, error) {
 			Depth: 2, MediaAt: 0, ResAt: 0, Revs: 1, Numbering: "ascending", Order: "sorted", Eol: "lf", Count: "branches"}
 		b, err := pdfdoc.Build(l, [][]pdfdoc.Item{{{2, 1}, {3, 2}}, {{1, 3}}}, []pdfdoc.Item{{2, 11}}, []pdfdoc.Item{{3, 21}})
 		return b, ".pdf", err
+	case "pdf-ttf":
+		b, _, err := ttfDoc(nil)
+		return b, ".pdf", err
 	case "docx":
-		b, err := zipOf(docxMembers())
+		ms := docxMembers()
+		// a richer body: heading with outline level, list items with levels, a table with a grid, spans and merges
+		ms[2].data = `<?xml version="1.0" encoding="UTF-8" standalone="yes"?><w:document xmlns:w="http://schemas.openxmlformats.org/wordprocessingml/2006/main"><w:body>` +
+			`<w:p><w:pPr><w:outlineLvl w:val="1"/></w:pPr><w:r><w:t>Heading 2</w:t></w:r></w:p><w:p><w:r><w:t>` + c20Token + `</w:t></w:r></w:p>` +
+			`<w:p><w:pPr><w:numPr><w:ilvl w:val="0"/><w:numId w:val="1"/></w:numPr></w:pPr><w:r><w:t>item 1</w:t></w:r></w:p>` +
+			`<w:p><w:pPr><w:numPr><w:ilvl w:val="2"/><w:numId w:val="1"/></w:numPr></w:pPr><w:r><w:t>item 2</w:t></w:r></w:p>` +
+			`<w:tbl><w:tblGrid><w:gridCol w:w="2000"/><w:gridCol w:w="2000"/><w:gridCol w:w="2000"/></w:tblGrid>` +
+			`<w:tr><w:tc><w:tcPr><w:gridSpan w:val="2"/></w:tcPr><w:p><w:r><w:t>a 3</w:t></w:r></w:p></w:tc><w:tc><w:tcPr><w:vMerge w:val="restart"/></w:tcPr><w:p><w:r><w:t>b</w:t></w:r></w:p></w:tc></w:tr>` +
+			`<w:tr><w:tc><w:p><w:r><w:t>c</w:t></w:r></w:p></w:tc><w:tc><w:p><w:r><w:t>d 4</w:t></w:r></w:p></w:tc><w:tc><w:tcPr><w:vMerge/></w:tcPr><w:p/></w:tc></w:tr></w:tbl>` +
+			`</w:body></w:document>`
+		b, err := zipOf(ms)
 		return b, ".docx", err
 	case "odt":
-		b, err := zipOf(odtMembers())
+		ms := odtMembers()
+		// a richer body: heading with outline level, nested list, a table with repeated columns, spans and covered cells
+		ms[1].data = `<?xml version="1.0" encoding="UTF-8"?><office:document-content xmlns:office="urn:oasis:names:tc:opendocument:xmlns:office:1.0" xmlns:text="urn:oasis:names:tc:opendocument:xmlns:text:1.0" xmlns:table="urn:oasis:names:tc:opendocument:xmlns:table:1.0" office:version="1.2"><office:body><office:text>` +
+			`<text:h text:outline-level="2">Heading 2</text:h><text:p>` + c20Token + `</text:p>` +
+			`<text:list><text:list-item><text:p>item 1</text:p><text:list><text:list-item><text:p>item 2</text:p></text:list-item></text:list></text:list-item></text:list>` +
+			`<table:table table:name="T1"><table:table-column table:number-columns-repeated="3"/>` +
+			`<table:table-row><table:table-cell table:number-columns-spanned="2" table:number-rows-spanned="2"><text:p>a 3</text:p></table:table-cell><table:covered-table-cell/><table:table-cell><text:p>b</text:p></table:table-cell></table:table-row>` +
+			`<table:table-row table:number-rows-repeated="1"><table:covered-table-cell table:number-columns-repeated="2"/><table:table-cell><text:p>d 4</text:p></table:table-cell></table:table-row></table:table>` +
+			`</office:text></office:body></office:document-content>`
+		b, err := zipOf(ms)
 		return b, ".odt", err
 	case "xlsx":
 		ms := xlsxMembers()
@@ -154,6 +176,112 @@ func c02BaseDoc(f string) ([]byte, string, error) {
 			`</p><ul><li>one<ul><li>nested 2</li></ul></li><li>two</li></ul><table><tr><th colspan="2">h</th></tr><tr><td rowspan="2">a</td><td>b 3</td></tr><tr><td>c</td></tr></table><pre>code 4</pre></body></html>`), ".html", nil
 	}
 	return nil, "", fmt.Errorf("unknown format %s", f)
+}
+
+// ------------------------------------------------------------ an embedded TrueType program
+
+// ttfProgram builds a minimal TrueType font program (offset table, table directory, head / hhea / maxp / hmtx / cmap
+// with one format-4 subtable) and the byte offsets and widths of its numeric fields. fault(i, width) may return a
+// replacement for field i (big-endian, width bytes).
+func ttfProgram(fault func(i int, width int) []byte) ([]byte, int) {
+	be16 := func(v int) []byte { return []byte{byte(v >> 8), byte(v)} }
+	be32 := func(v int) []byte { return []byte{byte(v >> 24), byte(v >> 16), byte(v >> 8), byte(v)} }
+	type field struct{ off, w int }
+	var fields []field
+	head := make([]byte, 54)
+	copy(head[0:], be32(0x00010000))
+	copy(head[12:], be32(0x5F0F3CF5))
+	copy(head[18:], be16(1000)) // unitsPerEm
+	hhea := make([]byte, 36)
+	copy(hhea[0:], be32(0x00010000))
+	copy(hhea[34:], be16(3)) // numberOfHMetrics
+	maxp := append(be32(0x00005000), be16(3)...)
+	var hmtx []byte
+	for _, w := range []int{500, 600, 700} {
+		hmtx = append(append(hmtx, be16(w)...), be16(0)...)
+	}
+	// cmap: version, numTables, (platform 3, encoding 1, offset 12), format 4 with two segments [0x41..0x43], [0xFFFF]
+	var cm []byte
+	cm = append(cm, be16(0)...)
+	cm = append(cm, be16(1)...)
+	cm = append(cm, be16(3)...)
+	cm = append(cm, be16(1)...)
+	cm = append(cm, be32(12)...)
+	sub := [][]byte{be16(4), be16(32), be16(0), be16(4), be16(4), be16(1), be16(0),
+		be16(0x43), be16(0xFFFF), be16(0), be16(0x41), be16(0xFFFF), be16(0), be16(1), be16(0), be16(0)}
+	for _, x := range sub {
+		cm = append(cm, x...)
+	}
+	tabs := []struct {
+		tag  string
+		data []byte
+	}{{"cmap", cm}, {"head", head}, {"hhea", hhea}, {"hmtx", hmtx}, {"maxp", maxp}}
+	dirLen := 12 + 16*len(tabs)
+	var out []byte
+	out = append(out, be32(0x00010000)...)
+	out = append(out, be16(len(tabs))...)
+	out = append(out, be16(64)...)
+	out = append(out, be16(2)...)
+	out = append(out, be16(16)...)
+	fields = append(fields, field{0, 4}, field{4, 2}, field{6, 2}, field{8, 2}, field{10, 2})
+	off := dirLen
+	var body []byte
+	starts := map[string]int{}
+	for _, t := range tabs {
+		pos := len(out)
+		out = append(out, []byte(t.tag)...)
+		out = append(out, be32(0)...)
+		out = append(out, be32(off)...)
+		out = append(out, be32(len(t.data))...)
+		fields = append(fields, field{pos + 4, 4}, field{pos + 8, 4}, field{pos + 12, 4})
+		starts[t.tag] = off
+		body = append(body, t.data...)
+		for len(body)%4 != 0 {
+			body = append(body, 0)
+		}
+		off = dirLen + len(body)
+	}
+	out = append(out, body...)
+	// fields inside the tables the reader looks at
+	for k := 0; k < 2; k++ {
+		fields = append(fields, field{starts["cmap"] + 2*k, 2})
+	}
+	fields = append(fields, field{starts["cmap"] + 4, 2}, field{starts["cmap"] + 6, 2}, field{starts["cmap"] + 8, 4})
+	for k := 0; k < len(sub); k++ {
+		fields = append(fields, field{starts["cmap"] + 12 + 2*k, 2})
+	}
+	fields = append(fields, field{starts["head"] + 18, 2}, field{starts["hhea"] + 34, 2}, field{starts["maxp"] + 4, 2})
+	for k := 0; k < 6; k++ {
+		fields = append(fields, field{starts["hmtx"] + 2*k, 2})
+	}
+	if fault != nil {
+		for i, f := range fields {
+			if r := fault(i, f.w); r != nil {
+				copy(out[f.off:f.off+f.w], r)
+			}
+		}
+	}
+	return out, len(fields)
+}
+
+// ttfDoc: one page set in a TrueType font whose program is embedded (/FontFile2, Flate)
+func ttfDoc(fault func(i int, width int) []byte) ([]byte, int, error) {
+	prog, n := ttfProgram(fault)
+	f := &pdfw.File{EOL: "lf"}
+	f.Revs = []pdfw.Revision{{XRef: "table", Root: pdfw.Ref{Num: 1}, Items: []pdfw.Item{
+		{Num: 1, Val: pdfw.Dict{{"Type", pdfw.Name("Catalog")}, {"Pages", pdfw.Ref{Num: 2}}}},
+		{Num: 2, Val: pdfw.Dict{{"Type", pdfw.Name("Pages")}, {"Kids", pdfw.Arr{pdfw.Ref{Num: 3}}}, {"Count", pdfw.Int(1)}}},
+		{Num: 3, Val: pdfw.Dict{{"Type", pdfw.Name("Page")}, {"Parent", pdfw.Ref{Num: 2}}, {"MediaBox", pdfw.Arr{pdfw.Int(0), pdfw.Int(0), pdfw.Int(300), pdfw.Int(300)}},
+			{"Resources", pdfw.Dict{{"Font", pdfw.Dict{{"F1", pdfw.Ref{Num: 5}}}}}}, {"Contents", pdfw.Ref{Num: 4}}}},
+		{Num: 4, Stm: &pdfw.Stream{Data: []byte("BT /F1 12 Tf 20 100 Td (ABC " + c20Token + ") Tj ET")}},
+		{Num: 5, Val: pdfw.Dict{{"Type", pdfw.Name("Font")}, {"Subtype", pdfw.Name("TrueType")}, {"BaseFont", pdfw.Name("ABCDEF+Verif")}, {"FirstChar", pdfw.Int(65)}, {"LastChar", pdfw.Int(67)},
+			{"Widths", pdfw.Arr{pdfw.Int(500), pdfw.Int(600), pdfw.Int(700)}}, {"Encoding", pdfw.Name("WinAnsiEncoding")}, {"FontDescriptor", pdfw.Ref{Num: 6}}}},
+		{Num: 6, Val: pdfw.Dict{{"Type", pdfw.Name("FontDescriptor")}, {"FontName", pdfw.Name("ABCDEF+Verif")}, {"Flags", pdfw.Int(32)},
+			{"FontBBox", pdfw.Arr{pdfw.Int(0), pdfw.Int(-200), pdfw.Int(1000), pdfw.Int(800)}}, {"ItalicAngle", pdfw.Int(0)}, {"Ascent", pdfw.Int(800)}, {"Descent", pdfw.Int(-200)},
+			{"CapHeight", pdfw.Int(700)}, {"StemV", pdfw.Int(80)}, {"FontFile2", pdfw.Ref{Num: 7}}}},
+		{Num: 7, Stm: &pdfw.Stream{Dict: pdfw.Dict{{"Filter", pdfw.Name("FlateDecode")}, {"Length1", pdfw.Int(len(prog))}}, Data: pdfw.Deflate(prog)}}}}}
+	b, _, err := f.Bytes()
+	return b, n, err
 }
 
 // ------------------------------------------------------------ fault application
@@ -445,6 +573,33 @@ func applyText(b []byte, f rFault, k int) []byte {
 // writer with that one field replaced (the rest of the file stays consistent), so these faults are applied
 // to the base document only, before any textual fault. Returns the damaged file and the number of sites.
 func instreamDoc(fmtName string, site int, param string) ([]byte, int, error) {
+	if fmtName == "pdf-ttf" {
+		// the numeric fields of the embedded font program (offset table, table directory, cmap, hhea, head, maxp, hmtx)
+		return ttfDoc(func(i, width int) []byte {
+			if i != site {
+				return nil
+			}
+			r := make([]byte, width)
+			for j := range r {
+				switch param {
+				case "0":
+					r[j] = 0
+				case "-1":
+					r[j] = 0xFF
+				case "2147483648":
+					if j == 0 {
+						r[j] = 0x80
+					}
+				default:
+					r[j] = 0xFF
+					if j == 0 {
+						r[j] = 0x7F
+					}
+				}
+			}
+			return r
+		})
+	}
 	n := 0
 	pdfw.PayloadFault = func(kind string, num int, payload []byte, w [3]int) []byte {
 		switch kind {
@@ -849,6 +1004,33 @@ func specialPDFs(kind string) ([][]byte, error) {
 			return nil, err
 		}
 		out = append(out, b)
+	case "xref-index-odd", "xref-w000":
+		// a cross-reference stream whose /Index has an odd number of entries; one whose entries are zero bytes wide
+		// while /Index announces two thousand million of them
+		f := &pdfw.File{EOL: "lf"}
+		f.Revs = []pdfw.Revision{{XRef: "stream", Root: pdfw.Ref{Num: 1}, XRefNum: 5, W: [3]int{1, 3, 2}, Split: true,
+			Items: []pdfw.Item{{Num: 1, Val: pdfw.Dict{{"Type", pdfw.Name("Catalog")}, {"Pages", pdfw.Ref{Num: 2}}}},
+				{Num: 2, Val: pdfw.Dict{{"Type", pdfw.Name("Pages")}, {"Kids", pdfw.Arr{pdfw.Ref{Num: 3}}}, {"Count", pdfw.Int(1)}}},
+				{Num: 3, Val: page(pdfw.Ref{Num: 4})},
+				{Num: 4, Stm: &pdfw.Stream{Data: []byte("BT /F1 12 Tf 10 10 Td (x) Tj ET")}}}}}
+		b, _, err := f.Bytes()
+		if err != nil {
+			return nil, err
+		}
+		t := string(b)
+		re := regexp.MustCompile(`/Index \[([0-9 ]+)\]`)
+		m := re.FindStringSubmatch(t)
+		if m == nil {
+			return nil, fmt.Errorf("special %s: no /Index in the written file", kind)
+		}
+		// the dictionary of the last object may grow: its own offset (startxref) does not move
+		if kind == "xref-index-odd" {
+			t = strings.Replace(t, m[0], "/Index ["+m[1]+" 3]", 1)
+		} else {
+			t = strings.Replace(t, m[0], "/Index [0 2147483647]", 1)
+			t = strings.Replace(t, "/W [1 3 2]", "/W [0 0 0]", 1)
+		}
+		out = append(out, []byte(t))
 	case "ladder-kids", "ladder-dict":
 		// a reference graph without a cycle that is not a tree either: every level names the next level TWICE. A walk
 		// that only refuses its own ancestors visits 2^depth nodes (28 levels here); it has to remember what it has seen
